@@ -55,6 +55,11 @@ Clauses(e) ==
                       \o Chk(e.nr = TRUE /\ ~e.has_port => e.line.isnum, e, "C09.protocol-numeric-switch")
                       \o Chk(e.re_exc = "" /\ e.re_number = n, e, "C09.protocol-rendering-not-accepted-back")
                       \o Chk(e.ace_exc = "" /\ e.ace_number = n, e, "C09.protocol-rendering-not-accepted-back-in-an-entry")
+                      (* tcp / udp, spelled by name or number, with port expressions: the spelling changes nothing but text *)
+                      \o Chk(e.with_ports.done => (e.with_ports.number = n /\ e.with_ports.sp = <<1000>> /\ e.with_ports.dp = <<2000>>), e,
+                             "C09.protocol-spelling-changed-the-ports-of-the-entry")
+                      \o Chk(e.generated.done => (e.generated.n = 1 /\ e.generated.number = n /\ e.generated.sp = <<1000>> /\ e.generated.dp = <<2000>>), e,
+                             "C09.numeric-switch-changed-the-ports-of-a-generated-entry")
                       \o Chk(e.pname = "" \/ (Has(tbl, e.pname) /\ NumOf(tbl, e.pname) = n), e, "C09.protocol-name-attribute"))
     [] e.act = "Split" ->
          LET tbl == PortTable(e.plat, e.vmajor, e.proto) IN
